@@ -1033,6 +1033,10 @@ use std::ops::{Deref, DerefMut, Index, IndexMut};
 #[derive(Clone, Debug, PartialEq)]
 pub struct Inner { pub tag: u32 }
 
+// index types that are NOT Copy: the std ranges and a user key
+#[derive(Clone, Debug, PartialEq)]
+pub struct Key(pub String);
+
 pub type Fld = G<u32>;
 pub type FldAlias = Fld;
 pub type GAlias<T> = G<T>;
@@ -1086,6 +1090,16 @@ impl<T> DerefMut for G<T> { fn deref_mut(&mut self) -> &mut Inner { &mut self.in
 // indexing and iteration run BACKWARDS, so they cannot be confused with Vec's own
 impl<T> Index<usize> for G<T> { type Output = T; fn index(&self, i: usize) -> &T { let n = self.v.len(); &self.v[n - 1 - i] } }
 impl<T> IndexMut<usize> for G<T> { fn index_mut(&mut self, i: usize) -> &mut T { let n = self.v.len(); &mut self.v[n - 1 - i] } }
+impl<T> Index<std::ops::Range<usize>> for G<T> { type Output = [T]; fn index(&self, r: std::ops::Range<usize>) -> &[T] { &self.v[r] } }
+impl<T> IndexMut<std::ops::Range<usize>> for G<T> { fn index_mut(&mut self, r: std::ops::Range<usize>) -> &mut [T] { &mut self.v[r] } }
+impl<T> Index<std::ops::RangeFrom<usize>> for G<T> { type Output = [T]; fn index(&self, r: std::ops::RangeFrom<usize>) -> &[T] { &self.v[r] } }
+impl<T> IndexMut<std::ops::RangeFrom<usize>> for G<T> { fn index_mut(&mut self, r: std::ops::RangeFrom<usize>) -> &mut [T] { &mut self.v[r] } }
+impl<T> Index<std::ops::RangeInclusive<usize>> for G<T> { type Output = [T]; fn index(&self, r: std::ops::RangeInclusive<usize>) -> &[T] { &self.v[r] } }
+impl<T> IndexMut<std::ops::RangeInclusive<usize>> for G<T> { fn index_mut(&mut self, r: std::ops::RangeInclusive<usize>) -> &mut [T] { &mut self.v[r] } }
+impl<T> Index<std::ops::RangeFull> for G<T> { type Output = [T]; fn index(&self, r: std::ops::RangeFull) -> &[T] { &self.v[r] } }
+impl<T> IndexMut<std::ops::RangeFull> for G<T> { fn index_mut(&mut self, r: std::ops::RangeFull) -> &mut [T] { &mut self.v[r] } }
+impl<T> Index<Key> for G<T> { type Output = T; fn index(&self, k: Key) -> &T { let n = self.v.len(); &self.v[k.0.len() % n] } }
+impl<T> IndexMut<Key> for G<T> { fn index_mut(&mut self, k: Key) -> &mut T { let n = self.v.len(); &mut self.v[k.0.len() % n] } }
 impl<T> IntoIterator for G<T> {
     type Item = T; type IntoIter = std::iter::Rev<std::vec::IntoIter<T>>;
     fn into_iter(self) -> Self::IntoIter { self.v.into_iter().rev() }
@@ -1119,6 +1133,16 @@ INHERENT_BY_REF = "pub fn into_iter(&self) -> std::iter::Rev<std::slice::Iter<'_
 PRELUDE = (PRELUDE_HEAD + FIELD_TYPE.replace("INHERENT_INTO_ITER", INHERENT_BY_VALUE)
            + re.sub(r"\bG\b", "H", FIELD_TYPE.replace("INHERENT_INTO_ITER", INHERENT_BY_REF)))
 
+
+
+NONCOPY_INDEX = [
+    # (index expression, its type, Output)
+    ("1..3", "std::ops::Range<usize>", "[u32]"),
+    ("1..", "std::ops::RangeFrom<usize>", "[u32]"),
+    ("0..=1", "std::ops::RangeInclusive<usize>", "[u32]"),
+    ("..", "std::ops::RangeFull", "[u32]"),
+    ('Key("ab".to_string())', "Key", "u32"),
+]
 
 
 def emit_case(case, real):
@@ -1173,6 +1197,15 @@ def emit_case(case, real):
             line("index", ("pos", "pos(&cand, &addr(r))"), ("val", "*r"))
             L += ["  }"]
             ops.append(("index", bk))
+            # the wrapper must accept exactly the index types the field accepts - also those that are not Copy -
+            # and return the very slice / element (address, length, contents) the field's own Index returns
+            for (ix, ity, out) in NONCOPY_INDEX:
+                f = "|r: &%s| (addr(r), %s, format!(\"{:?}\", r))" % (out, "r.len()" if out == "[u32]" else "1usize")
+                c = cand("f(<" + ftyi + " as Index<" + ity + ">>::index(&%(a)s, " + ix + "))")
+                L += ["  { let s = mk(); let f = %s; let cand = %s; let got = f(&s[%s]);" % (f, c, ix)]
+                line("index_nc", ("ix", '"%s"' % ity.split("::")[-1]), ("pos", "pos(&cand, &got)"), ("val", "got.2"))
+                L += ["  }"]
+                ops.append(("index_nc", bk))
         elif d == "IndexMut":
             c = cand("addr(<" + ftyi + " as IndexMut<usize>>::index_mut(&mut %(a)s, 1))")
             L += ["  { let mut s = mk(); let cand = %s; let before = %s;" % (c, fps),
@@ -1180,6 +1213,16 @@ def emit_case(case, real):
             line("index_mut", ("pos", "pos(&cand, &got)"), ("changed", "changed(&before, &after)"))
             L += ["  }"]
             ops.append(("index_mut", bk))
+            for (ix, ity, out) in NONCOPY_INDEX:
+                f = "|r: &%s| (addr(r), %s)" % (out, "r.len()" if out == "[u32]" else "1usize")
+                c = cand("f(<" + ftyi + " as IndexMut<" + ity + ">>::index_mut(&mut %(a)s, " + ix + "))")
+                wr = "r[0] = 777;" if out == "[u32]" else "*r = 777;"
+                L += ["  { let mut s = mk(); let f = %s; let cand = %s; let before = %s;" % (f, c, fps),
+                      "    let got = { let r: &mut %s = &mut s[%s]; %s f(r) }; let after = %s;" % (out, ix, wr, fps)]
+                line("index_mut_nc", ("ix", '"%s"' % ity.split("::")[-1]), ("pos", "pos(&cand, &got)"),
+                     ("changed", "changed(&before, &after)"))
+                L += ["  }"]
+                ops.append(("index_mut_nc", bk))
         elif d == "IntoIterator":
             if rk == "RNo":
                 c = "vec![" + ", ".join("{ let s = mk(); <%s as IntoIterator>::into_iter(%s).collect::<Vec<u32>>() }" % (ftyi, a) for a in acc) + "]"
@@ -1569,7 +1612,11 @@ def run_rt(chk, runtime):
             raise common.BuildError("the generated C14 crate does not compile and no module can be blamed:\n" + err[-3000:])
         for m, text in sorted(bad.items()):
             c = plan[m][0]
-            chk.violation("does-not-compile", {"case": {k: v for k, v in c.items() if not k.startswith("_") and k != "id"},
+            cls = "does-not-compile"
+            if c["derive"] in ("Index", "IndexMut") and re.search(r"E0277|E0608|cannot be indexed|cannot index into|: Copy`", text):
+                # the field accepts this index type (the candidates call its own Index impl), the derived wrapper does not
+                cls = "index-type-rejected"
+            chk.violation(cls, {"case": {k: v for k, v in c.items() if not k.startswith("_") and k != "id"},
                                                "item": item_src(c, pub=True, both=True), "rustc": text[-1500:]},
                           "derive(%s) on `%s` expands but rustc rejects the result: %s" %
                           (c["derive"], item_src(c), text.strip().splitlines()[0][:200]))
@@ -1604,7 +1651,7 @@ def run_rt(chk, runtime):
         vals = {}
         for (op, kv), meta in zip(got, ops):
             n_obs += 1
-            chk.count((c["derive"], src, op, kv.get("k"), kv.get("cls")), True)
+            chk.count((c["derive"], src, op, kv.get("k"), kv.get("cls"), kv.get("ix")), True)
             chk.bump("rt:" + op)
             if "cls" in kv:
                 chk.bump("rt:target-class:" + kv["cls"])
